@@ -612,6 +612,60 @@ func raceSuite(c *Ctx) []Finding {
 		_ = msgs
 	}
 
+	// the header a sum reports is the first file's (in glob order), whatever order the
+	// concurrent per-file reads finish in: the first file is kept busy (locked) while the
+	// others complete
+	{
+		item3 := filepath.Join(root, "it3")
+		os.MkdirAll(item3, 0755)
+		aggs := []wt.AggregationMethod{wt.Max, wt.Sum, wt.Last, wt.Min}
+		for f := 0; f < 4; f++ {
+			if db, err := wt.Create(filepath.Join(item3, fmt.Sprintf("h%02d.wsp", f)), lay, aggs[f], float32(f)/8); err == nil {
+				pts, _ := parsePts(g.genBatch())
+				db.UpdatePointsForArchive(pts, -1, wt.Timestamp(g.now))
+				db.Sync()
+				db.Close()
+			}
+		}
+		sumHeader := func(hold bool) (string, error) {
+			out := filepath.Join(dir, "sum3.txt")
+			os.Remove(out)
+			release := make(chan struct{})
+			if hold {
+				if f, err := os.OpenFile(filepath.Join(item3, "h00.wsp"), os.O_RDWR, 0); err == nil {
+					for syscall.Flock(int(f.Fd()), syscall.LOCK_EX) == syscall.EINTR {
+					}
+					go func() {
+						time.Sleep(250 * time.Millisecond)
+						syscall.Flock(int(f.Fd()), syscall.LOCK_UN)
+						f.Close()
+						close(release)
+					}()
+				} else {
+					close(release)
+				}
+			} else {
+				close(release)
+			}
+			cmd := &wcmd.SumCommand{SrcBase: root, ItemPattern: "it3", SrcPattern: "*.wsp", From: wt.Timestamp(g.now - g.lay.MaxRet()), Until: wt.Timestamp(g.now), ArchiveID: -1, TextOut: out, ShowHeader: true}
+			err := cmd.Execute()
+			<-release
+			b, _ := ioutil.ReadFile(out)
+			p := parseOutput(string(b))
+			return strings.Join(p.headers, "|"), err
+		}
+		h1, e1 := sumHeader(false)
+		h2, e2 := sumHeader(true)
+		count("sum-header-order", "ok")
+		if e1 != nil || e2 != nil {
+			bad("sum-error", fmt.Sprintf("%v %v", e1, e2))
+		} else if h1 != h2 {
+			bad("sum-header-depends-on-read-order", fmt.Sprintf("the header reported by sum changed when the first file's read was made to finish last: %s vs %s", clip(h1), clip(h2)))
+		} else if !strings.HasPrefix(h1, fmt.Sprintf("%d/", int(aggs[0]))) {
+			bad("sum-header-not-first-file", "the header reported by sum is not the first file's: "+clip(h1))
+		}
+	}
+
 	// server: every endpoint in parallel
 	self, _ := os.Executable()
 	port := freePort()
